@@ -135,6 +135,9 @@ func body(c *kernel.Ctx) {
 	dropPct := []int{0, 0, 5}[verifrt.Intn("cfg", 3)]
 	dupPct := []int{0, 5, 20}[verifrt.Intn("cfg", 3)]
 
+	checkYields := verifrt.Intn("cfg", 4)
+	checkSleep := time.Duration([]int{0, 0, 5, 25}[verifrt.Intn("cfg", 4)]) * time.Millisecond
+	lateIDs := []int{0, 0, 6, 14}[verifrt.Intn("cfg", 4)]
 	mkNet := func(session []byte, record bool) (*simnet.Net, []*bcast.Component, *simnet.Host) {
 		net := simnet.New()
 		net.Fate = func(e *simnet.Envelope) simnet.Fate {
@@ -200,9 +203,30 @@ func body(c *kernel.Ctx) {
 						return nil
 					},
 					func(_ context.Context, _ peer.ID, a *anypb.Any) error {
+						// the application's content check takes a while (scheduling points): other requests
+						// and registrations of further message ids interleave with it
+						for k := checkYields; k > 0; k-- {
+							verifrt.Yield()
+						}
+						if checkSleep > 0 {
+							verifrt.Sleep(time.Duration(1+verifrt.Intn("w", int(checkSleep/time.Millisecond))) * time.Millisecond)
+						}
 						var sv wrapperspb.StringValue
 						return a.UnmarshalTo(&sv)
 					})
+			}
+			if record && lateIDs > 0 {
+				// as dkg.Run does: further message ids (of later ceremony steps) are registered one after
+				// the other on the component while it is already serving requests
+				verifrt.GoNode(fmt.Sprintf("n%d", me), func() {
+					for k := 0; k < lateIDs; k++ {
+						verifrt.Sleep(time.Duration(verifrt.Intn("w", 25)) * time.Millisecond)
+						comp.RegisterMessageIDFuncs(fmt.Sprintf("late-step-%d", k),
+							func(context.Context, peer.ID, string, proto.Message) error { return nil },
+							func(context.Context, peer.ID, *anypb.Any) error { return nil })
+						verifrt.Probe("message-id-registered-while-serving")
+					}
+				})
 			}
 			comps[i] = comp
 		}
@@ -210,6 +234,7 @@ func body(c *kernel.Ctx) {
 	}
 
 	netA, compsA, fhA := mkNet(w.session, true)
+	_ = checkYields
 	sessionB := []byte("session-B-fedcba9876543210")
 	var netB *simnet.Net
 	var fhB *simnet.Host
